@@ -17,6 +17,31 @@ ASSUMPTIONS = ['a subscription type outside the crate (user-defined) follows the
 K1_EXEMPT_PARTS = {
     ('ops::ref_count::RefCountSubscription', 'self.subject'): 'the inner subject is shared by all subscribers of share(); it is released by the last leaver, it is not a part of this subscription',
 }
+
+
+def k1_exempt(cx, im, part):
+    """is `part` ('self.<field>') of this Subscription impl the shared, ref-counted hub of share()? Recognised by role, not by name:
+    the impl is RefCountSubscription's and the field's type parameter is the one bounded by SubjectSize"""
+    F = cx.facts
+    tag = roles.impl_tag(cx, im)
+    if (tag, part) in K1_EXEMPT_PARTS:
+        return True
+    if tag != 'ops::ref_count::RefCountSubscription':
+        return False
+    sized = {F.tystr(p['self']) for p in im['preds'] if p['k'] == 'trait' and p['tr'] == 'subject::SubjectSize'}
+    adt = F.adts.get(tag)
+    if not adt or not sized:
+        return False
+    st = F.ty(F.strip_refs(im['self']))
+    amap = dict(zip(adt['generics'], [F.tystr(a) for a in st.get('a', [])]))
+    for v in adt['variants']:
+        for f in v['fields']:
+            ft = F.ty(f['t'])
+            if 'self.' + f['n'] == part and ft['k'] == 'param' and amap.get(ft['n'], ft['n']) in sized:
+                return True
+    return False
+
+
 # impls that answer from an Option slot being empty (true only after unsubscribe took the part)
 K1_SLOT_ANSWER = {
     '_': 'blanket impl for MutRc|MutArc<Option<S>>-like cells: is_closed = slot is None',
@@ -66,7 +91,7 @@ def k1(cx):
         gc = cx.graph(fc['key'], forward=True)
         pu = _parts(gu, UNSUB_NAMES)
         pc = _parts(gc, IS_CLOSED_NAMES)
-        parts = [p for p in pu if (tag, p) not in K1_EXEMPT_PARTS]
+        parts = [p for p in pu if not k1_exempt(cx, im, p)]
         if not parts:
             continue
         if tag in K1_SLOT_ANSWER and not pc:
